@@ -145,12 +145,13 @@ def verify_function(prog, reg, c, labels=None, opts=None, timeout_ms=20000):
                 for q1, v1 in ex.split_opt(q, v):
                     for label, post in c.posts.items():
                         if labels is not None and label not in labels: continue
+                        mark = len(S.pending)
                         try:
                             g = post(S, fr.argns, v1, q1) if _wants_path(post) else post(S, fr.argns, v1)
                         except (AttributeError, TypeError, AssertionError, IndexError) as e:
                             # the returned value does not even have the shape the contract speaks about
                             g = z3.BoolVal(False)
-                        ex.oblige(f'{label}/{site}', q1.pc, g, kind='post', trace=q1.trace)
+                        ex.oblige(f'{label}/{site}', q1.pc, g, kind='post', trace=q1.trace, _mark=mark)
             elif kind == 'exc':
                 if not any(sx.exc_matches(v.typ, t) is True for t in c.raises):
                     ex.oblige(f'raises_only{list(c.raises)}/{v.typ}@L{v.where}', q.pc, z3.BoolVal(False), kind='raise', trace=q.trace)
